@@ -720,7 +720,10 @@ def check(tier_name: str, seed: int, max_runs: int | None = None) -> int:
 
         # ---- histories
         failing = {tid for tid, rec in ref[h0].items() if rec.get("status") == "raised"}
-        changing = {tid for tid, rec in ref[h0].items() if rec.get("changed")}
+        # operations during which nodes are replaced (the traced "model is being changed now" markers fired); where the
+        # markers never fire for a kind of operation, fall back to "its result differs from its input"
+        changing = {tid for tid, rec in ref[h0].items() if rec.get("marks")}
+        changing |= {tid for tid, rec in ref[h0].items() if rec.get("changed") and tmap[tid]["kind"] != "convert"}
         runs = gen_runs(seed, tier, targets, repo, failing, changing)
         for run in runs:  # resolve fault positions from the measured call counts
             for op in run["ops"]:
